@@ -84,6 +84,17 @@ CHECKS = {
             "replayer's construction of [a]B+[i]T8 for the class layer (cross-checked by the real-scale sample: 32 quick / 640 thorough).",
             "TLA+ Ed25519 predicate: exhaustive TLC at toy scale; class verdicts and real-scale re-decision by TLC trace validation",
             "5/C01"),
+    "C02": ("model_checking",
+            "TLC checks on toy curves, for every key x nonce x challenge, that the Schnorr signature has canonical R, S < l, is accepted by "
+            "the declarative predicate under every legal option vector (all four presets unconditionally) and rejected for any other S, "
+            "challenge or length. Bound to the code: the COMPLETE option-validation lattice (9216 tuples incl. entropy failure) is replayed "
+            "and judged by OptionError; recorded key pairs and signatures (pure/ctx/ph, with and without added randomness) are recomputed "
+            "byte for byte at real scale from the seed by TLC (RFC 8032 framing, fixed-base multiplications, wide reductions) and compared "
+            "with crypto/ed25519; each is verified under every preset, in a mixed batch, and rejected after flips.",
+            "Trusts TLC/SANY, BigNat/F25519/Edwards, SHA-512 of the standard library as a table (inputs rebuilt by the spec). Real-scale "
+            "signatures: 16 per configuration quick (two configurations), 400 thorough (four).",
+            "TLA+ RFC 8032 signing spec evaluated by TLC on recorded signatures; exhaustive option lattice; toy-scale exhaustive TLC",
+            "5/C02"),
 }
 
 NOT_YET = "check not built yet in this round (planned, see DESIGN.md section 11); not claimed until its machinery exists"
